@@ -47,7 +47,7 @@ func pickHeight(r *rand.Rand, ch *ns.Chain, max int) int {
 // kinds of scenario
 var kinds = []string{"no-witness", "no-cf", "block-mutatetx", "block-badwitness", "cfheaders-liar", "consistent-liar",
 	"extra-honest", "unexposed-block-liar", "lighter-fork", "cp-liar-long", "cp-only-liar-long",
-	"same-ip-cfheaders-liars", "same-ip-consistent-liars"}
+	"same-ip-cfheaders-liars", "same-ip-consistent-liars", "banfault-cfheaders-liar", "banfault-block-liar"}
 
 func gen(r *rand.Rand, id int, seed, tipUnix int64, kind string) Hist {
 	h := Hist{}
@@ -110,6 +110,21 @@ func gen(r *rand.Rand, id int, seed, tipUnix int64, kind string) Hist {
 			h.Expect = []int{1, 1, 0}
 		}
 		h.DeadlineMs = 30000
+	case "banfault-cfheaders-liar":
+		// the ban cannot be recorded (ban store write fault): the liar must
+		// be disconnected all the same
+		h.Nodes = []ns.NodeSpec{honest, {Chain: "main", B: ns.Behaviour{Filter: &ns.FilterLie{
+			Height: pickHeight(r, ch, h.ChainLen), InCheckpt: true, InHeaders: true}}}}
+		h.Expect = []int{0, 4}
+		h.BanStoreFault = true
+		h.DeadlineMs = 30000
+	case "banfault-block-liar":
+		honest.B.Silent = []string{"getdata"}
+		h.Nodes = []ns.NodeSpec{honest, {Chain: "main", B: ns.Behaviour{Block: &ns.BlockLie{Kind: "mutatetx", Height: -1}}}}
+		h.Expect = []int{0, 4}
+		h.BanStoreFault = true
+		h.Events = []ns.Event{{AtMs: 1500, Kind: "getblock", Height: 1 + r.Intn(h.ChainLen)}}
+		h.DeadlineMs = 16000
 	case "extra-honest":
 		h.Nodes = []ns.NodeSpec{honest, honest, honest}
 		h.Expect = []int{0, 0, 0}
@@ -242,7 +257,7 @@ func main() {
 		// connected after the client had finished that part of the sync)
 		// has shown no misbehaviour: no ban can be demanded of the client.
 		for j := range h.Nodes {
-			if j < len(h.Expect) && h.Expect[j] == 1 && j < len(h.Res.Received) && !exposed(&h.Nodes[j].B, h.Res.Received[j]) {
+			if j < len(h.Expect) && (h.Expect[j] == 1 || h.Expect[j] == 4) && j < len(h.Res.Received) && !exposed(&h.Nodes[j].B, h.Res.Received[j]) {
 				h.Expect[j] = 3
 				h.Kinds = append(h.Kinds, "liar-never-asked")
 				rep.Histogram["liar-never-asked"]++
